@@ -530,8 +530,12 @@ def f_div(a, b):
     if b_zero is not False and b_zero is not True:
         from . import ctx as _ctx
 
-        if _ctx.cur().provable(b_not(b_zero)):
-            b_zero = False
+        try:
+            if _ctx.cur().provable(b_not(b_zero), 400):
+                b_zero = False
+        except TypeError:
+            if _ctx.cur().provable(b_not(b_zero)):
+                b_zero = False
     a_zero = b_and(b_not(a.inf), a.val == 0)
     nan = b_or(a.nan, b.nan, b_and(a.inf, b.inf), b_and(a_zero, b_zero))
     inf = b_and(b_not(nan), b_or(a.inf, b_zero))
